@@ -279,12 +279,12 @@ def main():
     ck = lib.Check("C19")
     pr = ck.run_proof()
     quick = ck.tier == "quick"
-    n_main, n_upd = (72, 12) if quick else (420, 60)
+    n_main, n_upd = (60, 10) if quick else (420, 60)
     cases = [gen_case(ck.rng, ck.tier) for _ in range(n_main)] + \
             [gen_case(ck.rng, ck.tier, force="update") for _ in range(n_upd)]
     t_impl = time.time()
     ires = run_impl_parallel([to_impl(c) for c in cases], shards=12 if quick else 16)
-    probes = probe_cases(ck.rng, cases, ires, 16 if quick else 90)
+    probes = probe_cases(ck.rng, cases, ires, 12 if quick else 90)
     ires += run_impl_parallel([to_impl(c) for c in probes], shards=8 if quick else 16)
     cases += probes
     ck.hist["impl_seconds"] = {"value": round(time.time() - t_impl, 1)}
@@ -309,7 +309,7 @@ def main():
                            f"{blist(s['dx'])} {nat(s['i'])}", j)
         # (2) body_fun on sampled transitions
         nt = len(traj) - 1
-        extra_t = [ck.rng.randrange(nt) for _ in range(2 if D <= 7 else 1)] if nt > 2 else []
+        extra_t = [ck.rng.randrange(nt) for _ in range(2 if (D <= 7 and not quick) else 1)] if nt > 2 else []
         sel = sorted(set([0, nt - 1] + extra_t) & set(range(nt)))
         for t in sel:
             add(i, "step", f"c19b_step {common(c)} {blist(traj[t]['x'])} {blist(traj[t]['fx'])}", t)
